@@ -134,6 +134,26 @@ NEEDS = {
     "C19_m6": "two assets where the last transaction looked up for one and the first taxable event of the next share a row number (one-entry memo survives between assets)",
     "C20_m5": "the optional fiat_out_no_fee supplied with a value different from amount x price (sold yen taken from it)",
     "C20_m6": "-g kl and an asset with two or more years (previous sheet named without the localised pattern)",
+    # round 4 (one change each, built from two cooperating edits or an interaction of two options)
+    "C10_m7": "a from-date and a lot used partly by a disposal before it and again by one inside the window (k/n counters restart at the window start)",
+    "C01_m7": "a from-date and a fee-bearing transfer before it, then a disposal inside the window that reaches the lot that paid the fee",
+    "C02_m7": "a year->method schedule whose later period is HIFO/LIFO/LOFO, a lot partly consumed when that period begins, a later disposal that needs the remainder",
+    "C03_m7": "an IN-table row of type DONATE (donation received taxed as income)",
+    "C05_m7": "rp2_full_report: an income row directly after a long-term fraction of the same asset (label carried over)",
+    "C06_m7": "two assets in one process whose fractions share a (event row, lot row) pair with different year, type or term (cache keyed by rows)",
+    "C07_m7": "a transfer whose fee is worth less than half a cent of fiat (fee leaves the balances but stays in the lots)",
+    "C08_m7": "-t, non-UTC offsets and an overdrawing debit on the to-date itself between local and UTC midnight (cut by UTC date)",
+    "C14_m7": "two assets whose disposed lots sit on the same input row with different acquisition dates (date-acquired cache keyed by row)",
+    "C15_m7": "an OUT-table STAKING transaction with holdings left (consumed lot part counted as unsold)",
+    "C18_m7": "rp2_jp with language ja (template link file) and a relative output directory: reports written under the installed package",
+    "C04_m7": "an out-transaction whose exchange-supplied fiat_out_no_fee lies within half a cent of amount x price without being equal (supplied value dropped)",
+    "C09_m7": "HIFO/LIFO/LOFO, two assets in one run, a later lot of the first asset on the same row as an earlier lot of the second (sort key memo keyed by row)",
+    "C11_m7": "a sheet whose INTRA table is not the last table (rows after its TABLE END are not read)",
+    "C13_m7": "a FEE-typed out-transaction (entered, or the artificial fee disposal of a crypto-fee acquisition): USD Out shows the fee",
+    "C16_m7": "a transfer into an account and a disposal from it at the same timestamp, the balance before that instant smaller than the disposal, no -n",
+    "C19_m7": "a taxable event whose local year differs from its UTC year (Summary links bucket rows by UTC year)",
+    "C20_m7": "two transactions of one asset at the same timestamp (same-second fills, buy and sell, or the artificial fee of a crypto-fee purchase)",
+    "C12_m7": "-m equal to the country's default method together with an [accounting_methods] section in the config (conflict no longer rejected)",
 }
 
 
